@@ -217,4 +217,26 @@ var props = []Prop{
 		Stubs:       []string{"yaml decoder -> nondet callback", "graph library -> abstract graph", "exporter"},
 		Assumptions: commonAssumptions,
 	},
+	{
+		ID: "C10", Level: "model_checking",
+		Harnesses: []HSpec{
+			{Dir: "internal/cmd", Fn: "VF_C10_smoke"},
+			{Dir: "internal/cmd", Fn: "VF_C10_contract", Split: 4, MaxStrLen: [2]int{40, 40}},
+			{Dir: "internal/cmd", Fn: "VF_C10_quiet", Split: 4, MaxStrLen: [2]int{40, 40}},
+		},
+		Bounds:      []string{"the real RunE of `build` on the shipped wiring (internal/gontainer.New executed on the runtime-container model): 1-2 patterns over 2 files in 5 layouts x 7 configurations (valid + one per defect class + a double defect) x 6 symbolic fault bits (glob error, read error, YAML error, gofmt error, goimports error, write error) x --stub; --quiet as a 2-safety comparison"},
+		Outside:     []string{"cobra's parsing of argv and required-flag enforcement", "the exit-code mapping in main (one if)", "partial writes (os.WriteFile is all-or-nothing in the model)", "text/template execution (opaque rendering), go/format and x/tools/imports (fail or identity)"},
+		Stubs:       []string{"filepath.Glob/Clean, os.ReadFile/WriteFile, yaml.Unmarshal, format.Source, imports.Process: harness stubs (engine by name, natively by source rewriting)", "gontainer-helpers container: engine model, validated on every run by comparing stdout of the whole command with the native run", "cobra/pflag flag binding, fatih/color uncoloured"},
+		Assumptions: commonAssumptions,
+	},
+	{
+		ID: "C16", Level: "model_checking",
+		Harnesses: []HSpec{
+			{Dir: "internal/cmd", Fn: "VF_C16_flags", Split: 3, MaxStrLen: [2]int{40, 40}},
+		},
+		Bounds:      []string{"7 configurations (valid, one per defect class, missing parameter + missing service) x the four flag combinations (symbolic bits), each compared with the flag-less run of the same command on the shipped wiring"},
+		Outside:     []string{"as C10"},
+		Stubs:       []string{"as C10"},
+		Assumptions: commonAssumptions,
+	},
 }
